@@ -22,6 +22,9 @@ K_DEREF_MUT = "<GenericArray<$0,$1> as core::ops::DerefMut>::deref_mut"
 def is_view(cs):
     if cs.key in (K_AS_SLICE, K_AS_MUT_SLICE):
         return True
+    from .absint import SLICE_VIEW_IMPLS
+    if cs.key in SLICE_VIEW_IMPLS and cs.ret is not None and cs.ret[0] == "P":
+        return True  # the crate's AsRef / AsMut / Borrow / BorrowMut<[T]>: modelled as the full view (their bodies: C02.D / C13.B)
     if cs.key == "GenericArray<$0,$1>::len":
         return True  # modelled constant N (spec checked by rules.check_views)
     if cs.fn.startswith("core::ptr::const_ptr::<impl *const T>::") or cs.fn.startswith("core::ptr::mut_ptr::<impl *mut T>::"):
